@@ -98,3 +98,16 @@ package networkconnector
 //@   loop 2: invariant rangeindex >= 0 ==> (table[i][rangeindex].nextHop != nil ==> table[i][rangeindex].nextHop.LocalNode == table[i][i].src)
 //@   label C30.fw.cell.mono
 //@   loop 2: invariant rangeindex >= 0 ==> table[i][rangeindex].distance <= old(table[i][rangeindex].distance)
+
+// findRemote: a copy of the FIRST link of l that leads to node t, or nil when no link does.
+//@ fn findRemote
+//@   property C30
+//@   label C30.findremote.nil
+//@   ensures (result == nil) <==> (forall k in 0..len(l) :: l[k].RemoteNode != t)
+//@   label C30.findremote.hit
+//@   ensures result != nil ==> fresh(result) && result.RemoteNode == t
+//@   label C30.findremote.first
+//@   ensures forall k in 0..len(l) :: (l[k].RemoteNode == t && (forall m in 0..k :: l[m].RemoteNode != t)) ==> result != nil && result.LocalPort == l[k].LocalPort && result.LocalNode == l[k].LocalNode && result.RemotePort == l[k].RemotePort && result.Link == l[k].Link
+//@   assigns nothing
+//@   loop 0: invariant -1 <= rangeindex && rangeindex < len(l)
+//@   loop 0: invariant forall k in 0..rangeindex + 1 :: l[k].RemoteNode != t
